@@ -130,8 +130,8 @@ func runNGAPSweep(ctx *Ctx, prop string) {
 				}
 				return
 			}
-			if g.OutsideRoot {
-				return // not a value of this version of the type: outside C04's quantifier
+			if g.OutsideRoot && (libErr != nil || pan) {
+				return // an extension value the encoder refuses: outside C04's quantifier (C03 judges the refusal)
 			}
 			// C04 (a): decode(encode(v)) == v
 			dec := func(b []byte) (*refper.Node, error, bool) {
